@@ -60,6 +60,10 @@ type Contract struct {
 	// that property itself), the closure does not descend further into its own callees: they are verified by the checks
 	// of the properties they serve. Used on the orchestration layer, below which sits every protocol implementation.
 	Boundary bool
+	// AssumedEnsures: postconditions of a *verified* function that are assumed at call sites but not proved on its body
+	// (an abstraction the body cannot establish, e.g. interface-level typestate of an object wrapping an OS handle);
+	// every use is listed in the evidence
+	AssumedEnsures []*Clause
 	TrustPre    map[string]map[string]bool
 	TrustPreWhy map[string]string
 }
@@ -96,7 +100,7 @@ type Unit struct {
 	SafetyProps []string
 }
 
-var clauseRe = regexp.MustCompile(`^(requires|ensures|invariant|cover|lemma)(?:\[([^\]]*)\])?\s+(.*)$`)
+var clauseRe = regexp.MustCompile(`^(requires|ensures|assumed|invariant|cover|lemma)(?:\[([^\]]*)\])?\s+(.*)$`)
 
 // splitLabel splits "C01+C03.slot" into label and property ids.
 func splitLabel(l string) (string, []string) {
@@ -143,7 +147,7 @@ func (w *World) parseContracts(pkgs []*packages.Package) error {
 	return nil
 }
 
-var keywords = map[string]bool{"boundary": true, "trustpre": true, "func": true, "before": true, "onunlock": true, "atunlock": true, "contributes": true, "closure": true, "assume": true, "requires": true, "ensures": true, "modifies": true, "loop": true,
+var keywords = map[string]bool{"assumed": true, "boundary": true, "trustpre": true, "func": true, "before": true, "onunlock": true, "atunlock": true, "contributes": true, "closure": true, "assume": true, "requires": true, "ensures": true, "modifies": true, "loop": true,
 	"safety": true, "ghost": true, "monitor": true, "inv": true, "spawn": true, "pure": true, "note": true, "cover": true, "lemma": true, "iface": true, "noinline": true, "trusted": true, "inline": true, "stable": true}
 
 func firstWord(s string) string {
@@ -203,7 +207,7 @@ func (w *World) parseContractLines(sp *ssa.Package, lines, poss []string) error 
 			w.allContracts = append(w.allContracts, c)
 			cur = c
 			curMon = nil
-		case "requires", "ensures", "cover", "lemma":
+		case "requires", "ensures", "cover", "lemma", "assumed":
 			if cur == nil {
 				return fmt.Errorf("%s: clause outside func", pos)
 			}
@@ -217,6 +221,8 @@ func (w *World) parseContractLines(sp *ssa.Package, lines, poss []string) error 
 			case "ensures":
 				cur.Ensures = append(cur.Ensures, cl)
 				cur.Verify = true
+			case "assumed":
+				cur.AssumedEnsures = append(cur.AssumedEnsures, cl)
 			case "cover":
 				cur.Covers = append(cur.Covers, cl)
 			case "lemma":
